@@ -58,7 +58,10 @@ func (eng) Rule(mode string) string {
 		return "a real operator.Operator (memory:// storage, 16 key groups, event batch size 1, DKV memtable and timer cache re-tuned through the verif hooks to 64 B..1 MB / 0..100000 B) " +
 			"with a scripted handler: keyed events whose handler result registers timers (operator.go processEventBatch -> SetTimer), watermark messages from 1-3 source runners " +
 			"(handleWatermark -> AdvanceWatermark), and handler results to TimerExpired events that register further timers while the advance is still firing. " +
-			"Observed: the TimerExpired (key, timestamp) events the handler receives per watermark message. Non-trivial: some group's pending timers exceeded its cache budget and at least two messages fired timers."
+			"Observed: the TimerExpired (key, timestamp) events the handler receives per watermark message. Non-trivial: some group's pending timers exceeded its cache budget and at least two messages fired timers. " +
+			"Cases with params.batch > 1: event batches of 2-4 events without time-out, operator checkpoints (barriers from every runner) and crashes (Halt, a new Operator deployed from the reported checkpoint, local-disk storage), " +
+			"watermarks that fire timers into a partly filled batch right before the checkpoint; the handler marks every processed event in the keyed state, the marks found after the restore define the recovered timeline; " +
+			"checked: in the recovered timeline every timer the handler registered with t <= final watermark reaches the handler exactly once. Non-trivial there: a crash, an expiry flushed by a barrier and a firing after the last restore."
 	}
 	return "real TimerRegistry+TimerStore over a real dkv.DB (memory fs, memtable 64 B .. 1 MB so that flushes and compactions happen); " +
 		"key-group counts 1..16 split over 1..3 operators (one operator's range is driven), 1-8 subject keys of 1-6 bytes placed in that range, " +
@@ -355,7 +358,7 @@ func genCase(r *hx.Rand, idx int, tier string) *hx.Case {
 
 func (eng) Generate(mode, tier string, r *hx.Rand) []*hx.Case {
 	if mode == "c10op" {
-		return genOpCases(tier, r)
+		return append(genOpCases(tier, r), genCkCases(tier, r)...)
 	}
 	n := 700
 	if tier == "thorough" {
@@ -405,7 +408,9 @@ func (e eng) Execute(mode string, c *hx.Case) (*hx.Result, error) {
 			}
 			ch <- r
 		}()
-		if mode == "c10op" {
+		if mode == "c10op" && getInt(c.Params, "batch", 1) > 1 {
+			r.res, r.err = e.executeCk(c)
+		} else if mode == "c10op" {
 			r.res, r.err = e.executeOp(c)
 		} else {
 			r.res, r.err = e.execute(mode, c)
